@@ -19,6 +19,9 @@ import (
 	"github.com/specterops/dawgs/cypher/models/cypher"
 	"github.com/specterops/dawgs/cypher/models/pgsql/optimize"
 	"github.com/specterops/dawgs/graph"
+
+	"verif/gmodel"
+	"verif/refcypher"
 )
 
 // Finding is one root cause with its exclusion predicate.
@@ -730,7 +733,9 @@ func OptionalMatchSeveralFrames(q *Shape) bool {
 // matches give n*n*k rows instead of n*k. Incoming rows can repeat when an earlier pattern element is not exported by
 // the origin frame - it is anonymous, variable-length, or a variable that nothing from the OPTIONAL MATCH on
 // references (such bindings are pruned from the frames) - or when an UNWIND or a WITH precedes.
-// Not narrower: whether two incoming rows really are equal depends on the graph.
+// Whether two incoming rows really are equal depends on the graph: where the shape allows repeats, the query up to
+// the OPTIONAL MATCH is evaluated by the reference on the case's graph, returning the exported variables, and the
+// case is excluded only if two of those rows are equal (or the prefix cannot be evaluated).
 func OptionalMatchAfterDuplicableRows(q *Shape) bool {
 	for pi, p := range q.Parts {
 		mi := 0
@@ -742,9 +747,6 @@ func OptionalMatchAfterDuplicableRows(q *Shape) bool {
 			mi++
 			if !rc.Match.Optional || m.Index == 0 {
 				continue
-			}
-			if pi > 0 {
-				return true // rows come out of a WITH
 			}
 			// names referenced from this clause on, within the part
 			referenced := map[string]bool{}
@@ -759,15 +761,23 @@ func OptionalMatchAfterDuplicableRows(q *Shape) bool {
 			}
 			Visit(p.Projection, note)
 			Visit(p.Where, note)
+			if pi > 0 {
+				// rows come out of a WITH
+				if q.incomingRowsRepeat(pi, ci, referenced) {
+					return true
+				}
+				continue
+			}
 			if referenced["*"] {
 				continue
 			}
+			candidate := false
 			for _, earlier := range p.Clauses[:ci] {
 				if earlier == nil {
 					continue
 				}
 				if earlier.Unwind != nil {
-					return true
+					candidate = true
 				}
 				if earlier.Match == nil {
 					continue
@@ -776,17 +786,132 @@ func OptionalMatchAfterDuplicableRows(q *Shape) bool {
 					ps := patternShape(pp)
 					for _, n := range ps.Nodes {
 						if v := varName(n.Variable); v == "" || !referenced[v] {
-							return true
+							candidate = true
 						}
 					}
 					for _, r := range ps.Rels {
 						if v := varName(r.Variable); v == "" || !referenced[v] || IsVarLength(r) {
-							return true
+							candidate = true
 						}
 					}
 				}
 			}
+			if candidate && q.incomingRowsRepeat(pi, ci, referenced) {
+				return true
+			}
 		}
+	}
+	return false
+}
+
+// incomingRowsRepeat evaluates the query up to (not including) reading clause ci of part pi on the case's graph,
+// returning the in-scope variables that are referenced from that clause on, and reports whether two of the rows are
+// equal. It answers true when it cannot tell (WITH *, a prefix the reference does not evaluate).
+func (q *Shape) incomingRowsRepeat(pi, ci int, referenced map[string]bool) (repeat bool) {
+	defer func() {
+		if recover() != nil {
+			repeat = true
+		}
+	}()
+	if q.Model == nil || q.Model.SingleQuery == nil || referenced["*"] {
+		return true
+	}
+	p := q.Parts[pi]
+	var bound []string
+	seen := map[string]bool{}
+	add := func(v *cypher.Variable) {
+		if s := varName(v); s != "" && !seen[s] {
+			seen[s] = true
+			bound = append(bound, s)
+		}
+	}
+	var prefixParts []*cypher.MultiPartQueryPart
+	if pi > 0 {
+		mpq := q.Model.SingleQuery.MultiPartQuery
+		if mpq == nil {
+			return true
+		}
+		for _, mp := range mpq.Parts {
+			if mp != nil {
+				prefixParts = append(prefixParts, mp)
+			}
+		}
+		if len(prefixParts) < pi {
+			return true
+		}
+		prefixParts = prefixParts[:pi]
+		for _, earlier := range q.Parts[:pi] {
+			if earlier.Projection != nil && (earlier.Projection.Skip != nil || earlier.Projection.Limit != nil) {
+				return true // which rows come in is open
+			}
+		}
+		proj := q.Parts[pi-1].Projection
+		if proj == nil || proj.All {
+			return true
+		}
+		for _, it := range proj.Items {
+			item, ok := it.(*cypher.ProjectionItem)
+			if !ok || item == nil {
+				return true
+			}
+			if item.Alias != nil {
+				add(item.Alias)
+			} else if v, ok := item.Expression.(*cypher.Variable); ok {
+				add(v)
+			}
+		}
+	}
+	for _, earlier := range p.Clauses[:ci] {
+		if earlier == nil {
+			continue
+		}
+		if earlier.Unwind != nil {
+			add(earlier.Unwind.Variable)
+		}
+		if earlier.Match != nil {
+			for _, pp := range earlier.Match.Pattern {
+				if pp == nil {
+					continue
+				}
+				add(pp.Variable)
+				ps := patternShape(pp)
+				for _, n := range ps.Nodes {
+					add(n.Variable)
+				}
+				for _, r := range ps.Rels {
+					add(r.Variable)
+				}
+			}
+		}
+	}
+	ret := &cypher.Projection{}
+	for _, s := range bound {
+		if referenced[s] {
+			ret.Items = append(ret.Items, &cypher.ProjectionItem{Expression: &cypher.Variable{Symbol: s}})
+		}
+	}
+	if len(ret.Items) == 0 {
+		// nothing is exported: any two incoming rows are equal
+		ret.Items = append(ret.Items, &cypher.ProjectionItem{Expression: cypher.NewLiteral(int64(1), false), Alias: &cypher.Variable{Symbol: "verif_one"}})
+	}
+	last := &cypher.SinglePartQuery{ReadingClauses: p.Clauses[:ci:ci], Return: &cypher.Return{Projection: ret}}
+	prefix := &cypher.RegularQuery{SingleQuery: &cypher.SingleQuery{}}
+	if len(prefixParts) > 0 {
+		prefix.SingleQuery.MultiPartQuery = &cypher.MultiPartQuery{Parts: prefixParts, SinglePartQuery: last}
+	} else {
+		prefix.SingleQuery.SinglePartQuery = last
+	}
+	res, err := refcypher.EvalOpt(prefix, q.Case.Graph, q.Case.Params, refcypher.Options{})
+	if err != nil {
+		return true
+	}
+	rows := map[string]bool{}
+	for _, row := range res.Rows {
+		k := gmodel.RowKey(row)
+		if rows[k] {
+			return true
+		}
+		rows[k] = true
 	}
 	return false
 }
